@@ -83,6 +83,13 @@ def cases(tier, seed):
                     for adjust in ("spacing", "region"):
                         for pixel in (False, True):
                             yield dict(kind="grid", sc=1.0, region=region, spec=spec, adjust=adjust, pixel=pixel, mesh=True, extra=None, argtype="int")
+            # adjust='region' with a spacing that almost - but not exactly - fits, for many intervals (seed C07-r3_1: "close enough"
+            # tests): the step must be the requested spacing and the far bound start + k * spacing
+            for start, stop in ((0.0, 1000.0), (-3.0, 60.0), (0.0, 0.7)):
+                for k in (7, 40, 1000, 2521):
+                    for rel in (1e-4, 1e-6, -1e-6, 1e-9, -1e-9):
+                        for pixel in (False, True):
+                            yield dict(kind="line_near", start=start, stop=stop, k=k, rel=rel, pixel=pixel)
             # non-dyadic extents with many nodes: both bounds must still be hit exactly (added after seed C13-1)
             for start, stop in ((0.0, 0.7), (0.0, 5.0), (-3.3, 0.0), (0.0, 10.0), (1.1, 7.3), (-0.1, 0.2)):
                 for size in range(2, 161):
@@ -173,6 +180,23 @@ def run(case, rec):
             if size > 1:
                 rec.check(float(got[-1]) == stop, "last node != stop")
         rec.cls("size=%d pixel=%s" % (size, pixel))
+        return
+    if kind == "line_near":
+        start, stop, k, pixel = case["start"], case["stop"], case["k"], case["pixel"]
+        spacing = (stop - start) / k * (1.0 + case["rel"])
+        ks, tie = G.n_intervals(start, stop, spacing)
+        got = call(rec, vd.line_coordinates, start, stop, spacing=spacing, adjust="region", pixel_register=pixel)
+        if raised(got):
+            return rec.check(False, "line_coordinates raised %r" % (got,))
+        got = np.asarray(got)
+        ok = False
+        for kk in ks:
+            nodes, step, end = G.line_nodes_spacing(start, stop, spacing, "region", pixel, kk)
+            if got.size == len(nodes) and G.close_nodes(got, nodes, (start, stop, float(end)), nulp=8):
+                ok = True
+        rec.check(ok, "adjust='region': nodes are not start + i * spacing for spacing %r (k=%d): last node %r, expected about %r"
+                  % (spacing, k, got[-1] if got.size else None, start + k * spacing))
+        rec.cls("line_near")
         return
     if kind == "line_big":
         start, stop, size, pixel = case["start"], case["stop"], case["size"], case["pixel"]
